@@ -122,7 +122,11 @@ func xmlStructShape(st *types.Struct, path string, ownSpace string, stack []type
 				name = f.Name()
 			}
 			it := "@{" + space + "}" + name
-			if flags["omitempty"] {
+			// encoding/xml never considers a struct value empty: omitempty
+			// omits the attribute only for the other kinds, or when the type
+			// decides itself (MarshalXMLAttr may return the zero Attr)
+			_, isStructKind := derefType(f.Type()).Underlying().(*types.Struct)
+			if (flags["omitempty"] && !isStructKind) || hasMethod(derefType(f.Type()), "MarshalXMLAttr") {
 				it += "?"
 			}
 			items = append(items, it)
